@@ -189,3 +189,15 @@ def register(reg):
         "Trusted: nothing external (self-consistency). Mechanisms of base-property known findings are excluded by the same "
         "predicates.",
         "DESIGN.md section 4 C12")
+
+    reg("C20",
+        "differential execution monitor: one deterministic call list executed in three interpreter processes per shard (numba JIT as installed, NUMBA_DISABLE_JIT=1, JIT + NUMBA_BOUNDSCHECK=1 bounds sanitizer); per-call records (value / exception type) compared call by call",
+        "9 000 (quick) / 180 000 (thorough) calls over 10 families (34 distance functions on structured/contact/on-axis scenes, "
+        "collider support/AABB incl. update_pose paths, GJK flavours, MPR, EPA, AABB tree histories incl. empty trees, "
+        "tetrahedron / half-plane intersection, contact_forces, utils, simplex solvers): exception types must be identical, "
+        "discrete results identical away from decision boundaries, floats within 1e-9 relative (closed forms) or the "
+        "solver accuracy of C01/C07-C09; an IndexError that appears only under the bounds sanitizer, or a crash of a worker, is "
+        "an out-of-bounds access of compiled code. Known: K21 (sqrt amplification in line_to_box at contact).",
+        "Trusted: numba's NUMBA_BOUNDSCHECK instrumentation. Closest points are compared only where the optimum is unique; "
+        "contact_forces at the 5% noise level of C16; MPR depth only in generic placements (ties).",
+        "DESIGN.md section 4 C20")
